@@ -71,6 +71,9 @@ impl<const K: usize> AffTree<K> {
 //@end
 
 //@include prelude/pruned_spec.rs
+//@include prelude/tol_spec.rs
+//@include prelude/wit_core_spec.rs
+//@include prelude/wit_prune_spec.rs
 
 // rule I8 + the facts compose needs about the list: all terminals, each once, each feeding the left operand
 pub fn leaves_for<const K: usize>(t: &Tree<AffContent, K>, Ghost(dl): Ghost<usize>) -> (r: Vec<usize>)
@@ -123,9 +126,15 @@ impl<const K: usize> AffTree<K> {
         final(rhs).tree.wf(), final(rhs).tree.root == old(rhs).tree.root, final(rhs).in_dim == old(rhs).in_dim,
         aff_shape_ok(final(rhs).a(), final(rhs).in_dim),
         pr_outer(lhs.a(), old(rhs).a(), final(rhs).a(), terminals@, terminals@.len() as int),
+        // C05 (caches through the pruning composition, whatever the feasibility oracle answers): witnesses that satisfied their path conditions up to 1e-8
+        // before still do - only original nodes carry a cache, they keep state and path; copies start without cache and the oracle writes none
+        wit_inv(old(rhs).a(), old(rhs).a()) ==> wit_inv(final(rhs).a(), final(rhs).a()),
 //@hint start
         let ghost rl = lhs.tree.root.unwrap();
-        proof { lemma_pr_outer_init(lhs.a(), rhs.a(), terminals@, lhs.in_dim); }
+        let ghost mut wset: Set<usize> = rhs.a().dom();
+        proof { lemma_pr_outer_init(lhs.a(), rhs.a(), terminals@, lhs.in_dim); lemma_gi_init(rhs.a()); }
+//@hint loop 1 after
+        proof { if wit_inv(old(rhs).a(), old(rhs).a()) { lemma_gi_final(old(rhs).a(), rhs.a(), wset); } }
 //@loop 1
             invariant
                 K >= 2, K < usize::MAX, k_two::<K>(), lhs.tree.wf(), lhs.tree.root is Some, aff_shape_ok(lhs.a(), lhs.in_dim),
@@ -133,6 +142,7 @@ impl<const K: usize> AffTree<K> {
                 0 <= __t <= terminals@.len(), rl == lhs.tree.root.unwrap(),
                 rhs.tree.wf(), rhs.tree.root == Some(0usize), rhs.in_dim == old(rhs).in_dim, aff_shape_ok(rhs.a(), rhs.in_dim),
                 pr_outer(lhs.a(), old(rhs).a(), rhs.a(), terminals@, __t as int),
+                old(rhs).tree.wf(), gi_inv(old(rhs).a(), rhs.a(), wset),
 //@hint loop 1 start
             let ghost a_start = rhs.a();
             proof { lemma_pr_pick(lhs.a(), old(rhs).a(), a_start, terminals@, __t as int, lhs.in_dim, rhs.in_dim); }
@@ -143,6 +153,7 @@ impl<const K: usize> AffTree<K> {
                 broadcast use axiom_array2_shape;
                 lemma_pr_start(lhs.a(), a_start, rhs.a(), rl, terminal_idx, rhs.in_dim);
                 lemma_shape_write(a_start, rhs.a(), rhs.in_dim, terminal_idx);
+                lemma_gi_update(old(rhs).a(), a_start, rhs.a(), wset, terminal_idx);
             }
 //@loop 2
                 invariant
@@ -154,6 +165,7 @@ impl<const K: usize> AffTree<K> {
                     terminal_aff.ok(), terminal_aff.mat.ncols() == rhs.in_dim, terminal_aff.mat.nrows() == lhs.in_dim,
                     pr_inv(lhs.a(), rhs.a(), a_start, kind, pend, None, terminal_idx, rhs.in_dim), pr_stack(kind, pend, stack@),
                     shape_op(rhs.a(), rhs.in_dim),
+                    old(rhs).tree.wf(), gi_inv(old(rhs).a(), rhs.a(), wset),
                 ensures stack@.len() == 0,
 //@hint loop 2 start
                 proof {
@@ -163,6 +175,7 @@ impl<const K: usize> AffTree<K> {
                     lemma_kid_seq_members(lhs.a()[parent0_idx].children, 0);
                     lemma_count_zero_no_kids(rhs.a()[parent1_idx], 0);
                     if !no_kids(lhs.a()[parent0_idx]) { lemma_rows_fit(lhs.a(), lhs.in_dim, parent0_idx, rhs.a()[parent1_idx].value.aff.mat.nrows() as int); }
+                    lemma_gi_notdec(old(rhs).a(), rhs.a(), wset, parent1_idx);
                 }
                 let ghost p1_val = rhs.a()[parent1_idx].value;
 //@loop 3
@@ -177,6 +190,7 @@ impl<const K: usize> AffTree<K> {
                         kind.dom().contains(parent1_idx), kind[parent1_idx] == parent0_idx, !pend.contains(parent1_idx),
                         shape_op(rhs.a(), rhs.in_dim), rhs.a()[parent1_idx].value == p1_val, !no_kids(lhs.a()[parent0_idx]) ==> rows_fit::<K>(p1_val.aff.mat.nrows() as int),
                         lhs.a().dom().contains(parent0_idx), rhs.a().dom().contains(parent1_idx),
+                        old(rhs).tree.wf(), gi_inv(old(rhs).a(), rhs.a(), wset), gi_notdec(old(rhs).a(), parent1_idx),
                         0 <= __i <= __kids@.len(), __kids@.len() == kid_seq(lhs.a()[parent0_idx].children, 0).len(), __kids@.len() <= K,
                         n_children0 == __kids@.len(),
                         forall|j: int| 0 <= j < __kids@.len() ==> (#[trigger] __kids@[j]).source_idx == parent0_idx
@@ -208,6 +222,7 @@ impl<const K: usize> AffTree<K> {
                         lemma_count_set(a_pre[parent1_idx].children, a_add[parent1_idx].children, label as int, 0);
                         // the tree handed to the feasibility test is shape-consistent (needed by the real path polytope)
                         lemma_shape_add(a_pre, a_add, rhs.in_dim, parent1_idx, label, child1_idx);
+                        lemma_gi_add(old(rhs).a(), a_pre, a_add, wset, parent1_idx, label, child1_idx);
                     }
 //@hint after label_created = Some(label);
                         proof {
@@ -226,6 +241,8 @@ impl<const K: usize> AffTree<K> {
                         lemma_pr_merge(lhs.a(), a_fin, rhs.a(), a_start, kind, pend, terminal_idx, rhs.in_dim, stack@, parent1_idx, label_created.unwrap(), Some(0usize));
                         lemma_shape_merge(a_fin, rhs.a(), rhs.in_dim, parent1_idx, label_created.unwrap());
                         kind = kind.remove(parent1_idx);
+                        lemma_gi_merge(old(rhs).a(), a_fin, rhs.a(), wset, parent1_idx, label_created.unwrap(), false);
+                        wset = wset.remove(parent1_idx);
                     }
 //@hint loop 3 after
                 let ghost a_fin = rhs.a();
@@ -262,6 +279,8 @@ impl<const K: usize> AffTree<K> {
         aff_shape_ok(final(self).a(), final(self).in_dim),
         forall|i: usize| final(self).a().dom().contains(i) && #[trigger] final(self).a()[i].isleaf ==>
             exists|p: usize| other.a().dom().contains(p) && (#[trigger] other.a()[p]).isleaf && final(self).a()[i].value.aff.mat.nrows() == other.a()[p].value.aff.mat.nrows(),
+        // C05: witnesses that were right stay right (for every answer pattern of the feasibility oracle)
+        wit_inv(old(self).a(), old(self).a()) ==> wit_inv(final(self).a(), final(self).a()),
 //@hint start
         proof { reveal(pr_outer); }
 //@end
